@@ -706,6 +706,26 @@ def select_signatures(rng, total):
     """greedy pair-covering selection of (kind x value/Referenz x position) for 50 % of the budget, seeded random for the rest"""
     cov_cells, cov_pairs = set(), set()
     sigs = []
+    # phase 1: every (position, kind, mode) cell once: 34 signatures of arity 6, each position walks through a shuffled list of the 34 (kind, mode)
+    columns = []
+    for _ in range(6):
+        col = [(k, r) for k in KIND_CODES for r in (False, True)]
+        rng.shuffle(col)
+        columns.append(col)
+    for j in range(min(len(columns[0]), max(1, total // 3))):
+        params = []
+        for pos in range(6):
+            kind, ref = columns[pos][j]
+            p = {"kind": kind, "ref": ref}
+            if not ref and not KINDS[kind].prim:
+                p["by"] = rng.choice(["keep", "keep", "steal", "replace"])
+            params.append(p)
+        sg = {"params": params, "ret": ([None] + KIND_CODES)[j % (len(KIND_CODES) + 1)]}
+        cells, pairs = sig_cells(sg)
+        cov_cells.update(cells)
+        cov_pairs.update(pairs)
+        sigs.append(sg)
+    # phase 2: greedy on pairs up to half of the budget
     n_cover = int(total * 0.5)
     while len(sigs) < n_cover:
         best, best_score = None, -1
